@@ -104,3 +104,23 @@ FAMILIES["shape"] = {
         ]},
     ],
 }
+
+FAMILIES["lexsplit"] = {
+    "anchor": "parser/src/lex.rs Lexer::run (split-identifier block), Lexer::make_span, struct Loc",
+    "bound": "2 or 3 fragments of 1-3 ASCII characters each; arbitrary start location",
+    "header": "use crate::shim::*;\n",
+    "rewrites": (PUBCRATE,),
+    "dropped": "R10: `let tok = match prim {…};` (choice of the token kind) replaced by an opaque `tok_of(prim)`; the rest of the block verbatim",
+    "groups": [
+        {"prefix": "#[derive(Debug, Clone, Copy, PartialEq, Eq, PartialOrd, Ord)]\n",
+         "items": [{"kind": "block", "name": "struct Loc", "file": "parser/src/lex.rs", "header": r"^pub struct Loc \{"}]},
+        {"wrap": "impl<'a> Lexer<'a>", "items": [
+            {"kind": "fn", "name": "Lexer::make_span", "file": "parser/src/lex.rs", "impl": r"^impl<'a> Lexer<'a> \{", "fn": "make_span",
+             "rewrites": (("R1", r"fn make_span", "pub fn make_span", "visibility widened"),)},
+            {"kind": "range_in_fn", "name": "split-identifier block of Lexer::run", "file": "parser/src/lex.rs", "impl": r"^impl<'a> Lexer<'a> \{", "fn": "run",
+             "start": r"^[ \t]*let first_start = start;", "end": r"^[ \t]*let rest = &ident\[lowercase_end\.\.\];",
+             "sig": "pub fn split_ident_spans(&mut self, start: Loc, lowercase: &str, prims: Vec<(PrimComponent, &'a str)>)",
+             "rewrites": (("R10", r"(?s)let tok = match prim \{.*?\n[ \t]*\};", "let tok = tok_of(prim);", "token-kind selection dropped"),)},
+        ]},
+    ],
+}
